@@ -116,7 +116,7 @@ func HandleInvite(ctx context.Context, input HandleInviteInput) (PDU, error) {
 		string(input.InvitedUser.Domain()), input.KeyID, input.PrivateKey,
 	)
 
-	return handleInviteCommonChecks(ctx, input, signedEvent, *sender)
+	return handleInviteCommonChecks(ctx, input, signedEvent, *sender, input.InvitedSenderID)
 }
 
 func HandleInviteV3(ctx context.Context, input HandleInviteV3Input) (PDU, error) {
@@ -179,10 +179,14 @@ func HandleInviteV3(ctx context.Context, input HandleInviteV3Input) (PDU, error)
 		return nil, spec.InternalServerError{}
 	}
 
-	return handleInviteCommonChecks(ctx, input.HandleInviteInput, fullEvent, spec.UserID{})
+	// The membership to look at is that of the senderID the event was built for. The caller
+	// does not have to know it (input.InvitedSenderID) before GetOrCreateSenderID has run.
+	return handleInviteCommonChecks(ctx, input.HandleInviteInput, fullEvent, spec.UserID{}, invitedSenderID)
 }
 
-func handleInviteCommonChecks(ctx context.Context, input HandleInviteInput, event PDU, sender spec.UserID) (PDU, error) {
+// handleInviteCommonChecks runs the checks common to both invite handlers on the signed event.
+// invitedSenderID is the target of the invite, i.e. the state key of the event.
+func handleInviteCommonChecks(ctx context.Context, input HandleInviteInput, event PDU, sender spec.UserID, invitedSenderID spec.SenderID) (PDU, error) {
 	isKnownRoom, err := input.RoomQuerier.IsKnownRoom(ctx, input.RoomID)
 	if err != nil {
 		util.GetLogger(ctx).WithError(err).Error("failed querying known room")
@@ -209,7 +213,7 @@ func handleInviteCommonChecks(ctx context.Context, input HandleInviteInput, even
 			util.GetLogger(ctx).WithError(err).Error("failed generating stripped state for known room")
 			return nil, spec.InternalServerError{}
 		}
-		err := abortIfAlreadyJoined(ctx, input.RoomID, input.InvitedSenderID, input.MembershipQuerier)
+		err := abortIfAlreadyJoined(ctx, input.RoomID, invitedSenderID, input.MembershipQuerier)
 		if err != nil {
 			return nil, err
 		}
